@@ -44,10 +44,17 @@ def install(mido):
     return p.random
 
 
-def watched_files(mido):
+def watched_files(mido, program=None):
     import mido.backends._parser_queue as pq
     from . import c10_doubles
-    return frozenset({mido.ports.__file__, pq.__file__, c10_doubles.__file__})
+    base = {mido.ports.__file__, pq.__file__, c10_doubles.__file__}
+    if program is not None and program.startswith('P7'):
+        # two ports parsing at the same time: the parser and tokenizer are
+        # scheduling points too
+        import mido.parser
+        import mido.tokenizer
+        base |= {mido.parser.__file__, mido.tokenizer.__file__}
+    return frozenset(base)
 
 
 def assert_coop(port):
@@ -159,6 +166,22 @@ def programs(mido, size):
                       receiver_body(mido, port, 3)]
             return bodies, lambda: {'sent': sent, 'keep': port,
                                     'identity': port}
+        return make
+
+    def p_two_ports():
+        def make():
+            wa, wb = [], []
+            a = ByteDouble('a', wire_out=wa, wire_in=wa)
+            b = ByteDouble('b', wire_out=wb, wire_in=wb)
+            assert_coop(a)
+            assert_coop(b)
+            sent = []
+            bodies = [sender_body(mido, a, 0, 1, sent),
+                      sender_body(mido, b, 1, 1, sent),
+                      receiver_body(mido, a, 1), receiver_body(mido, b, 1)]
+            # each port's receiver may only see its own port's traffic
+            return bodies, lambda: {'sent': sent, 'keep': (a, b),
+                                    'only_from': {2: 0, 3: 1}}
         return make
 
     def p_device():
@@ -309,6 +332,7 @@ def programs(mido, size):
         'P5-parser-queue': p_queue(),
         'P5b-parser-queue-batch': p_queue(batch=True),
         'P6-echo-same-object-resent': p_reuse(),
+        'P7-two-independent-ports': p_two_ports(),
     })
     return progs
 
@@ -336,6 +360,12 @@ def judge(name, exe, obs, choices, violation, outcomes):
                           f'{i} under schedule {choices}', case)
                 return
         mine = [r for r in (res or []) if r[0] == 'got']
+        only = (obs.get('only_from') or {}).get(i)
+        if only is not None and any(m[1] != only for m in mine):
+            violation(f'{name}/crossed-ports',
+                      f'{name}: thread {i} received {mine} on a port where '
+                      f'only sender {only} sends, under {choices}', case)
+            return
         # per-receiver order: each sender's messages in the order sent
         for s in {m[1] for m in mine}:
             seq = [m[2] for m in mine if m[1] == s]
@@ -389,7 +419,7 @@ def _worker(args):
               lambda k, w, c: viols.append((k, w, c)) if len(viols) < 50
               else None, outcomes)
     try:
-        es.explore(progs[name], watched_files(mido), bound, check,
+        es.explore(progs[name], watched_files(mido, name), bound, check,
                    root=root, stats=stats, max_execs=budget,
                    free_bound=fbound)
     except es.HarnessLost as e:
@@ -408,7 +438,6 @@ def run():
     size = 2 if thorough else 1
     bounds = {}
     progs = programs(mido, size)
-    watched = watched_files(mido)
     jobs = []
     per_prog = {}
     for name in progs:
@@ -418,6 +447,7 @@ def run():
         bounds[name] = bound
         fbound = 3 if thorough else 2
         # determinism obligation: the default schedule twice, same observation
+        watched = watched_files(mido, name)
         e1, o1 = es.run_schedule(progs[name], [], watched)
         e2, o2 = es.run_schedule(progs[name], [], watched)
         if (e1.choices, sorted(e1.results.items())) != (
@@ -514,7 +544,7 @@ def run():
     rep.require(rep.coverage.get('lock_waits', 0) > 0,
                 'no schedule ever made a thread wait for a port lock')
     rep.require(all(d['distinct_outcomes'] >= 2 for k, d in per_prog.items()
-                    if not k.startswith(('P3', 'P6'))),
+                    if not k.startswith(('P3', 'P6', 'P7'))),
                 'a program showed a single outcome: nothing collided')
     return rep
 
@@ -526,7 +556,7 @@ def check_case(case):
     for size in (1, 2):
         progs = programs(mido, size)
         exe, obs = es.run_schedule(progs[case['program']], case['choices'],
-                                   watched_files(mido))
+                                   watched_files(mido, case['program']))
         judge(case['program'], exe, obs, case['choices'],
               lambda k, w, c=None: out.append((k, w)), set())
         if out:
